@@ -228,6 +228,23 @@ def rule_error_gate(ctx: Ctx, out: Collector) -> None:
                 pth = find_path(g, tsucc[0], {sp}, avoid={x.id for x in gates} | {lp.id}, labels=EXC_LABELS)
                 if pth is not None:
                     bad = pth
+            # the gate must scan the whole dag: a has-error call that narrows the scanned set (extra arguments)
+            narrowed = None
+            for gt in gates:
+                for x in ast.walk(gt.info['test']):
+                    if isinstance(x, ast.Call):
+                        for t in FuncEnv.of(ctx.p, gt.inst.unit).resolve_call(x):
+                            if t[0] == 'func' and t[1].fid in herr:
+                                whole = bool(x.args) and isinstance(x.args[0], ast.Name) and any(
+                                    d_[0] == 'param' for d_ in FuncEnv.of(ctx.p, gt.inst.unit).local_defs().get(x.args[0].id, []))
+                                if len(x.args) > 1 or x.keywords or not whole:
+                                    narrowed = x
+            if narrowed is not None and gates and bad is None:
+                out.bad('OO-6', cons, lp.where(),
+                        f'the error gate of the launch loop scans only part of the dag ({unparse(narrowed)[:70]}): an error stored by a node '
+                        f'that was executed for another scope (an earlier candidate, a shared ancestor) is not seen, the consumer counts as '
+                        f'ready and is started with the exception object as its argument')
+                continue
             is_oneof_guard = all(any(isinstance(x, ast.Attribute) and x.attr == 'is_oneof' for x in ast.walk(gt.info['test'])) for gt in gates)
             if gates and bad is None:
                 out.ok('OO-6', cons, lp.where(), 'every spawn is dominated by the has-subgraph-error gate of the iteration'
